@@ -2717,12 +2717,24 @@ func runExtBodyConsumed(rr *RuleRun) {
 		rr.Broken("stale anchor: unmarshalUnknownValue does not call DecodeExtHeader")
 		return
 	}
-	readsBody := func(n ast.Node) bool {
+	var readsBody func(n ast.Node) bool
+	helperDepth := 0
+	readsBody = func(n ast.Node) bool {
 		found := false
 		inspectNoLit(n, func(m ast.Node) bool {
 			call, ok := m.(*ast.CallExpr)
 			if !ok {
 				return true
+			}
+			// a helper of the same package that does the reading (extracted 'read the body' function)
+			if f := callee(info, call); f != nil && f.Pkg() != nil && shortPkg(f.Pkg()) == pkg && helperDepth < 2 {
+				if hd := c.Decl(pkg, funcDeclKey(f)); hd != nil && hd.Body != nil && hd != fd {
+					helperDepth++
+					if readsBody(hd.Body) {
+						found = true
+					}
+					helperDepth--
+				}
 			}
 			switch funcKey(callee(info, call)) {
 			case "io.ReadAtLeast", "io.ReadFull", "io.CopyN":
@@ -2856,6 +2868,57 @@ func runConstructorConsistencyAgreement(rr *RuleRun) {
 		}
 	}
 	if len(guards) < 2 {
+		// all of them may delegate the member-type test to one shared helper: agreement by construction
+		helperOf := map[string]*types.Func{}
+		for _, name := range names {
+			fd := c.Decl("cty", name)
+			if fd == nil {
+				continue
+			}
+			inspectNoLit(fd.Body, func(n ast.Node) bool {
+				rs, ok := n.(*ast.RangeStmt)
+				if !ok || helperOf[name] != nil {
+					return true
+				}
+				inspectNoLit(rs.Body, func(m ast.Node) bool {
+					call, ok := m.(*ast.CallExpr)
+					if !ok || helperOf[name] != nil {
+						return true
+					}
+					f := callee(info, call)
+					if f == nil || f.Pkg() == nil || shortPkg(f.Pkg()) != "cty" || f.Type().(*types.Signature).Recv() != nil || f.Exported() {
+						return true
+					}
+					for _, a := range call.Args {
+						if isCtyType(info.TypeOf(a)) {
+							helperOf[name] = f
+						}
+					}
+					return true
+				})
+				return true
+			})
+		}
+		var shared *types.Func
+		same := len(helperOf) > 0
+		for _, name := range names {
+			if c.Decl("cty", name) == nil {
+				continue
+			}
+			h := helperOf[name]
+			if h == nil || (shared != nil && h != shared) {
+				same = false
+			}
+			shared = h
+		}
+		if same && len(guards) == 0 {
+			for _, name := range names {
+				if fd := c.Decl("cty", name); fd != nil {
+					rr.OK("cty."+name+"/consistency-guard(shared helper)", fd.Pos(), "the member-type test of all six constructors / predicates is delegated to the one helper "+shared.Name()+": they agree by construction")
+				}
+			}
+			return
+		}
 		rr.Broken(fmt.Sprintf("stale anchor: the element-type consistency guard was found in only %d of the six constructors / predicates", len(guards)))
 		return
 	}
